@@ -9,7 +9,10 @@ stdin:  {"cases": [case, ...]}  (see harness/c03.py for the case format), or {"l
         event dictionaries / the defaults as {"hk": slot}, and "muts": [[after_tick, [operation, ...]], ...]: in-place operations on
         those objects between two ticks: ["tonic", slot, t] = key.tonic = t; ["scale", slot, semitones, octave_size] = key.scale = a
         new Scale object; ["semis", slot, semitones, how, swap] = key.scale.semitones assigned / replaced in place / two positions
-        swapped (what Scale.change() does).  mode "pdictseq": the track is scheduled as ONE dictionary of patterns (a key object that
+        swapped (what Scale.change() does); and unrelated constructions: ["newscale", name | null, semitones, octave_size, how]
+        (Scale / WeightedScale / fromnotes, named or with the class's default name), ["copyedit", name, semitones | null, how] (a copy
+        of the scale registered under the name, then edited), ["keynamed", slot, tonic, name, how] (a Key built from names; it can be
+        assigned to timeline.defaults.key by a change of the same tick).  mode "pdictseq": the track is scheduled as ONE dictionary of patterns (a key object that
         is the same in every event is given as the constant it is).
 stdout: {"results": [{"event": {"raise": cls} | {"view": enc}, "trace": [[tick, method, [enc args]], ...],
                       "raise": cls | null, "raise_tick": int | null, "pulls": {...}}, ...]}
@@ -42,6 +45,8 @@ def main():
         out = {"scales": [[n, list(s.semitones), s.octave_size] for n, s in Scale.dict.items()]}
         real_stdout.write(json.dumps(out))
         return
+
+    NOTE_NAMES = ["C", "C#", "D", "Eb", "E", "F", "F#", "G", "Ab", "A", "Bb", "B"]
 
     class Seq(Pattern):
         """finite pattern over a fixed list; counts how often the library pulls a value"""
@@ -105,9 +110,43 @@ def main():
                     sc = self.held[share].scale
                 self.held[slot] = Key(tonic, sc)
             self.n_scales = len(self.held)
+            self.made = []              # objects constructed along the way are kept alive
         def mutate(self, m):
-            """an in-place operation on a held Key object / on the Scale object it refers to"""
-            kind, slot = m[0], m[1]
+            """an in-place operation on a held Key object / on the Scale object it refers to, or an unrelated construction
+            (scales, weighted scales, copies, keys built from names) that happens in the process while the track runs"""
+            import copy as pycopy
+            kind = m[0]
+            if kind == "newscale":
+                # ["newscale", name | null, semitones, octave_size, how]
+                name, semis, osize, how = m[1], list(m[2]), m[3], m[4]
+                if how == "Scale":
+                    self.made.append(Scale(semis, name, octave_size=osize))
+                elif how == "Scale-unnamed":
+                    self.made.append(Scale(semis, octave_size=osize))
+                elif how == "fromnotes":
+                    self.made.append(Scale.fromnotes(semis, name=name, octave_size=osize))
+                elif how == "WeightedScale":
+                    self.made.append(iso.WeightedScale(semis, [1.0 / len(semis)] * len(semis), name, octave_size=osize))
+                elif how == "WeightedScale-unnamed":      # the default name of a WeightedScale is "major"
+                    self.made.append(iso.WeightedScale(semis, [1.0 / len(semis)] * len(semis)))
+                else:
+                    raise ValueError("unknown operation %r" % (m,))
+                return
+            if kind == "copyedit":
+                # ["copyedit", name, semitones | null, how]: a copy of the scale registered under the name, then edited
+                src, how = Scale.byname(m[1]), m[3]
+                c = src.copy() if how == "copy()" else pycopy.copy(src) if how == "copy.copy" else pycopy.deepcopy(src)
+                if m[2] is not None:
+                    c.semitones = list(m[2])
+                self.made.append(c)
+                return
+            if kind == "keynamed":
+                # ["keynamed", slot, tonic 0..11, name, how]: a Key object built from names at this moment
+                slot, t, name, how = m[1], m[2], m[3], m[4]
+                nn = NOTE_NAMES[t]
+                self.held[slot] = Key(t, name) if how == "Key(t,name)" else Key(nn, name) if how == "Key(note,name)" else Key("%s %s" % (nn, name))
+                return
+            slot = m[1]
             key = self.held[slot]
             if kind == "tonic":
                 key.tonic = m[2]
@@ -285,14 +324,14 @@ def main():
                 changes = case.get("changes") or []
                 muts = case.get("muts") or []
                 def reconfigure(after_tick):
-                    for at, kvs in changes:
-                        if at == after_tick:
-                            for name, v in kvs:
-                                setattr(tl.defaults, name, world.dec(v))
                     for at, ms in muts:
                         if at == after_tick:
                             for m in ms:
                                 world.mutate(m)
+                    for at, kvs in changes:
+                        if at == after_tick:
+                            for name, v in kvs:
+                                setattr(tl.defaults, name, world.dec(v))
                 t = -1
                 reconfigure(-1)
                 for t in range(case["nticks"]):
